@@ -5,6 +5,7 @@ import (
 	"errors"
 	"fmt"
 	"github.com/mmcloughlin/avo/build"
+	"github.com/mmcloughlin/avo/pass"
 	"math"
 	"os"
 	"os/exec"
@@ -99,6 +100,8 @@ func randConst(r *RNG) dconst {
 			b = 0x15ae43fd // double-rounding witness
 		case 4:
 			b = 0x95ae43fd
+		case 5:
+			b = math.Float32bits(Pick(r, []float32{1e21, 1e30, 3e38, -1e25, 1e20, 1e-7, 1e-30, math.MaxFloat32, math.SmallestNonzeroFloat32, 1e10, 16777216, 1e-45}))
 		default:
 			b = uint32(r.U64())
 		}
@@ -117,6 +120,11 @@ func randConst(r *RNG) dconst {
 			b = uint64(1 + r.Intn(1000))
 		case 2:
 			b = math.Float64bits(float64(r.Intn(1000000)))
+		case 3:
+			// decimal round numbers of every magnitude (their shortest text has one digit and a large exponent),
+			// the extremes, and values just around the switch-over points of the usual float formats
+			b = math.Float64bits(Pick(r, []float64{1e21, 1e22, 1e30, 7e250, 1e308, -1e21, -3e100, 1e20, 9.999999e20, 1e-7, 1e-5, 1e-300, 5e-324,
+				math.MaxFloat64, math.SmallestNonzeroFloat64, 123456789012345678901234567890, 0.000001, 1e15, 1e16, 1e17}))
 		default:
 			b = r.U64()
 		}
@@ -310,6 +318,7 @@ func goroot() string {
 // GlobalData, ConstData) makes that section the one later DATA/AppendDatum calls go to
 func builderSections(c *Ctx, rng *RNG) {
 	o := c.Out
+	nAssembled := 0
 	for k := 0; k < 40; k++ {
 		ctx := build.NewContext()
 		type sec struct {
@@ -395,6 +404,28 @@ func builderSections(c *Ctx, rng *RNG) {
 					ds = append(ds, [2]int{d.Offset, d.Value.Bytes()})
 				}
 				got[g.Symbol.Name] = ds
+			}
+		}
+		// the whole file as a user gets it: flagged data sections next to a function without flags, compiled by
+		// the real pipeline (which has to bring in textflag.h for the data flags), printed and assembled
+		if nAssembled < 12 && wantErrs == 0 && len(want) > 0 {
+			nAssembled++
+			ctx.DataAttributes(attr.RODATA | attr.NOPTR)
+			ctx.Function(fmt.Sprintf("plain%d", k))
+			ctx.SignatureExpr("func()")
+			ctx.RET()
+			if f2, err2 := ctx.Result(); err2 == nil && pass.Compile.Execute(f2) == nil {
+				if text, perr := printer.NewGoAsm(printer.Config{Name: "avo", Pkg: "p"}).Print(f2); perr == nil {
+					dir := filepath.Join(c.Tmp, "c13files")
+					os.MkdirAll(dir, 0o755)
+					fn := filepath.Join(dir, fmt.Sprintf("f%d.s", k))
+					os.WriteFile(fn, text, 0o644)
+					cmd := exec.Command("go", "tool", "asm", "-I", filepath.Join(goroot(), "pkg", "include"), "-p", "p", "-o", filepath.Join(dir, "f.o"), fn)
+					if out, aerr := cmd.CombinedOutput(); aerr != nil {
+						o.Plan.GoViolations = append(o.Plan.GoViolations, GoViolation{Key: "data:file-not-assemblable", Desc: fmt.Sprintf("case %d: the printed file with the data sections and a function without attributes is rejected by the assembler: %s (%s)", idx, firstLine(strings.TrimSpace(string(out))), strings.Join(desc, "; ")), Replay: map[string]any{"calls": desc, "text": string(text)}})
+					}
+					os.RemoveAll(dir)
+				}
 			}
 		}
 		for _, w := range want {
